@@ -701,6 +701,9 @@ def _corrupt_e04(e):
     if e["op"] == "typed":
         o["regular"] = "ok" if o["regular"] != "ok" else "err"
         return True
+    if e["op"] == "flatten_rewrite":
+        o["k"] = "err" if o["k"] == "ok" else "ok"
+        return True
     o["flat1"]["k"] = "err" if o["flat1"]["k"] == "ok" else "ok"
     return True
 
